@@ -60,7 +60,7 @@ def _blob_ok(c):
     return (48 <= o <= 57) or (97 <= o <= 122) or c == ':' or c == '=' or c == '+' or c == '/' or c == '\r' or c == '\n'
 
 
-def _product(version, keykind, blob, detach, single_hop, nclients, tok1, nports, form1, form2, pa, pb):
+def _product(version, keykind, blob, detach, single_hop, nclients, tok1, nports, form1, form2, pa, pb, same_virt=False):
     with api.no_tracing():
         p, t, tor = make_world(dict(INITIAL), True, {})
         p._set_valid_events('CONF_CHANGED HS_DESC CIRC STREAM')
@@ -95,7 +95,7 @@ def _product(version, keykind, blob, detach, single_hop, nclients, tok1, nports,
         return '%d 127.0.0.1:%d' % (a, b), '%d,127.0.0.1:%d' % (a, b)
 
     ports, want_ports = [], []
-    for (f, a, b) in [(form1, pa, pb), (form2, pb, pa)][:nports]:
+    for (f, a, b) in [(form1, pa, pb), (form2, pa if same_virt else pb, pb + 1 if same_virt else pa)][:nports]:
         m, wp = mapping(f, a, b)
         ports.append(m)
         want_ports.append(wp)
@@ -222,7 +222,7 @@ def _blob(n, b1, b2, b3):
 
 @cond(quick=dict(parts=_PARTS, pins={'maxblob': 2}, budget=150), thorough=dict(parts=_PARTS, pins={'maxblob': 3}, budget=900))
 def c14_product(version: int, keykind: int, nclients: int, nb: int, b1: int, b2: int, b3: int, detach: bool, single_hop: bool, tok1: bool,
-                nports: int, form1: int, form2: int, pa: int, maxblob: int) -> str:
+                nports: int, form1: int, form2: int, pa: int, same_virt: bool, maxblob: int) -> str:
     """one cell class of the option product per partition (version x key kind x auth clients); the rest chosen by the solver:
     key blob over the alphabet {letter, digit, : = + / CR LF}, detach, single-hop, client token, 1-2 port mappings of 4 forms,
     boundary public ports"""
@@ -241,8 +241,10 @@ def c14_product(version: int, keykind: int, nclients: int, nb: int, b1: int, b2:
     form1 = api.pick(form1, 0, 3)
     form2 = api.pick(form2, 0, 3)
     if nports == 1:
-        assume(form2 == 0)
+        assume(form2 == 0 and not same_virt)
+    if form2 == 0:
+        assume(not same_virt)     # (an int mapping gets the same stubbed local port: would be a true duplicate)
     pa = api.pick_from(pa, (1, 65535))
     with api.no_tracing():     # every choice is concrete by now
         return _product(version, keykind, blob, True if detach else False, True if single_hop else False, nclients, True if tok1 else False,
-                        nports, form1, form2, pa, 80)
+                        nports, form1, form2, pa, 80, True if same_virt else False)
